@@ -29,10 +29,10 @@ def cases(tier):
     for api in range(len(APIS)):
         if q and APIS[api] == "SCPI_ExprChannelListEntry":
             continue  # > 900 s on arbitrary bytes; the channel-list walker runs with all memory checks in C19's cases (quick) and here in thorough
-        cs.append(params(api, 3 if q else 4, 900 if q else 6000))
+        cs.append(params(api, 3, 900 if q else 3000))
     if not q:
-        cs.append(params(0, 4, 3000, None, ["-DUSE_DEVICE_DEPENDENT_ERROR_INFORMATION=0"], "-noinfo"))
-        cs.append(params(9, 4, 3000, None, ["-DUSE_MEMORY_ALLOCATION_FREE=0"], "-heap"))
+        cs.append(params(0, 3, 3000, None, ["-DUSE_DEVICE_DEPENDENT_ERROR_INFORMATION=0"], "-noinfo"))
+        cs.append(params(9, 3, 3000, None, ["-DUSE_MEMORY_ALLOCATION_FREE=0"], "-heap"))
     # (d) input buffer management incl. overrun and zero-length calls
     cs += [c for c in c08.cases(tier) if c.name.startswith("buffer-logic")]
     # (e) formatting / copying into caller buffers, built-in dtostre configuration
@@ -53,7 +53,7 @@ def cases(tier):
 META = dict(
     ub_is_violation=True,
     bounds=dict(layers="token recognisers (all inputs up to 6/9 bytes), program data (5/7 bytes), parameter and expression readers on arbitrary "
-                "NUL-terminated data (3/5 bytes, twice), input buffer logic incl. overrun (streams up to 5/7 bytes, buffers 2..7), formatting into "
+                "NUL-terminated data (3 bytes, twice), input buffer logic incl. overrun (streams up to 5/7 bytes, buffers 2..7), formatting into "
                 "caller buffers of every length 0..24/40, block/array emitters, error queue and static heap steps",
                 configurations="default, no device-dependent info, static info heap, built-in dtostre"),
     outside=["inputs longer than the per-layer bounds", "whole-pipeline runs SCPI_Input -> SCPI_Parse -> handler on symbolic text beyond what C02/C05 "
